@@ -24,6 +24,7 @@ verus! {
 impl Signal {
 //@decl Signal.is_input
 //@decl Signal.is_output
+//@decl Signal.is_bidirectional
 }
 impl EntryIndex {
 //@decl EntryIndex.indexes
